@@ -825,6 +825,10 @@ struct Driven {
     thread: String,
     accepted: Vec<Accepted>,
     rejected_wrote: Option<Value>,
+    /// the post that should have been refused was accepted (then nothing is known about it)
+    bad_accepted: bool,
+    /// ids of the messages appended through the store API before the router existed (not posted)
+    pre_messages: Vec<String>,
     plain: Option<PlainRun>,
     served: usize,
     flat_turns: Vec<Turn>,
@@ -957,11 +961,12 @@ async fn drive(case: &Case, send_second_input: bool, rep: &mut CaseReport) -> Re
 
     // ---- sandbox, optional pre-populated checkpoint, router
     let sandbox = Sandbox::new("c07");
+    let mut pre_messages: Vec<String> = Vec::new();
     let _ = std::fs::write(sandbox.ws.join(SEED_FILE), b"seed line one\nseed line two\n");
     if let Pre::Checkpoint { delete_blob } = &case.pre {
         let live = sandbox.open();
         let tid = live.store.ensure_default().map_err(|e| format!("pre ensure: {e}"))?;
-        let _m1 = live
+        let m1 = live
             .store
             .append_message(&tid, "user".into(), "test".into(), "earlier message one".into())
             .map_err(|e| format!("pre msg: {e}"))?;
@@ -976,7 +981,7 @@ async fn drive(case: &Case, send_second_input: bool, rep: &mut CaseReport) -> Re
                 CompactionCheckpointCumulativeV1Request {
                     summary_markdown: Some("summary of earlier messages".to_string()),
                     summary_artifact_id: None,
-                    to_message_id: Some(m2),
+                    to_message_id: Some(m2.clone()),
                     to_seq: None,
                     stride_messages: None,
                     actor_id: "user".to_string(),
@@ -984,6 +989,8 @@ async fn drive(case: &Case, send_second_input: bool, rep: &mut CaseReport) -> Re
                 },
             )
             .map_err(|e| format!("pre checkpoint: {e}"))?;
+        pre_messages.push(m1);
+        pre_messages.push(m2.clone());
         if *delete_blob {
             let blob = sandbox.blob_path(&art);
             if std::fs::remove_file(&blob).is_err() {
@@ -1015,6 +1022,7 @@ async fn drive(case: &Case, send_second_input: bool, rep: &mut CaseReport) -> Re
 
     // ---- a post that must be refused: nothing may be appended
     let mut rejected_wrote = None;
+    let mut bad_accepted = false;
     if case.bad_post != 0 {
         let before = auth.sandbox.log_bytes();
         let status = if case.bad_post == 1 {
@@ -1034,6 +1042,7 @@ async fn drive(case: &Case, send_second_input: bool, rep: &mut CaseReport) -> Re
         if status == StatusCode::ACCEPTED {
             // not a refusal after all: nothing to assert here (and nothing is tracked for it)
             rep.class("bad_post_was_accepted");
+            bad_accepted = true;
         } else if after != before {
             rejected_wrote = Some(json!({"status": status.as_u16(), "which": case.bad_post,
                 "appended": String::from_utf8_lossy(&after[before.len().min(after.len())..]).chars().take(600).collect::<String>()}));
@@ -1173,6 +1182,8 @@ async fn drive(case: &Case, send_second_input: bool, rep: &mut CaseReport) -> Re
         thread,
         accepted,
         rejected_wrote,
+        bad_accepted,
+        pre_messages,
         plain: plain_run,
         served,
         flat_turns,
@@ -1227,7 +1238,8 @@ fn check_session(sid: &str, frames: &[(usize, &Value)], expect_input: Option<&st
         rep.fail("session|start|not_first", detail("first frame is not session_started"));
     } else if let Some(inp) = expect_input {
         if s(frames[0].1, "input") != inp {
-            rep.fail("session|start|input_mismatch", detail("session_started.input differs from the posted input"));
+            // not part of the statement: counted only
+            rep.class("note:session_started_input_differs_from_posted_input");
         }
     }
     let starts = frames.iter().filter(|(_, v)| ty(v) == "session_started").count();
@@ -1270,7 +1282,8 @@ fn check_session(sid: &str, frames: &[(usize, &Value)], expect_input: Option<&st
             "tool_stdout" | "tool_stderr" => {
                 let id = s(v, "tool_id");
                 if !open.contains_key(id) {
-                    rep.fail("session|tool|output_outside_span", detail(&format!("output chunk of tool_id {id} outside started..ended")));
+                    // not part of the statement: counted only
+                    rep.class("note:tool_output_chunk_outside_started_ended");
                 }
             }
             _ => {}
@@ -1320,15 +1333,29 @@ fn oracle(case: &Case, d: &Driven, rep: &mut CaseReport) {
     let spawned: Vec<&(usize, &Value)> = thread_frames.iter().filter(|(_, v)| ty(v) == "continuity_run_spawned").collect();
     for sp in &spawned {
         let (m, r) = (s(sp.1, "message_id"), s(sp.1, "run_session_id"));
-        if !d.accepted.iter().any(|a| a.message_id == m && a.session_id == r) {
+        if !d.bad_accepted && !d.accepted.iter().any(|a| a.message_id == m && a.session_id == r) {
             rep.fail("thread|run_spawned|stray", json!({"why": "run_spawned naming no accepted post", "frame": sp.1, "accepted": d.accepted.iter().map(|a| json!([a.message_id, a.session_id])).collect::<Vec<_>>()}));
         }
     }
     let ended_all: Vec<&(usize, &Value)> = thread_frames.iter().filter(|(_, v)| ty(v) == "continuity_run_ended").collect();
     for en in &ended_all {
         let r = s(en.1, "run_session_id");
-        if !d.accepted.iter().any(|a| a.session_id == r) {
+        if !d.bad_accepted && !d.accepted.iter().any(|a| a.session_id == r) {
             rep.fail("thread|run_ended|stray", json!({"why": "run_ended naming no spawned run", "frame": en.1}));
+        }
+    }
+
+    // every message that reached the thread through POST /messages (i.e. every message frame other
+    // than the ones appended through the store API before the router existed) has exactly one
+    // run_spawned naming it - also when the HTTP answer was not 202
+    for (_, m) in thread_frames.iter().filter(|(_, v)| ty(v) == "continuity_message_appended") {
+        let id = s(m, "id");
+        if d.pre_messages.iter().any(|p| p == id) {
+            continue;
+        }
+        let n = spawned.iter().filter(|x| s(x.1, "message_id") == id).count();
+        if n != 1 {
+            rep.fail("post|run_spawned|count", json!({"why": format!("{n} run_spawned frames name posted message {id}"), "message": m}));
         }
     }
 
@@ -1352,7 +1379,8 @@ fn oracle(case: &Case, d: &Driven, rep: &mut CaseReport) {
         if msgs.len() != 1 {
             rep.fail("post|message_appended|count", detail(&format!("{} continuity_message_appended frames with the returned message_id", msgs.len())));
         } else if s(msgs[0].1, "content") != a.content {
-            rep.fail("post|message_appended|content_mismatch", detail("content differs from the posted content"));
+            // not part of the statement: counted only
+            rep.class("note:message_content_differs_from_posted_content");
         }
         // run_spawned
         let sp: Vec<&(usize, &Value)> = linked.iter().filter(|(_, v)| ty(v) == "continuity_run_spawned").collect();
@@ -1469,13 +1497,16 @@ fn oracle(case: &Case, d: &Driven, rep: &mut CaseReport) {
             if compile_failed {
                 rep.class("compile_failed");
                 if sframes.iter().any(|(_, v)| matches!(ty(v), "openresponses_request_started" | "tool_started" | "provider_event")) {
-                    rep.fail("run|context|provider_contacted_after_compile_failure", detail("context_compile_failed run still talked to the provider / ran tools"));
+                    // not part of the statement: counted only
+                    rep.class("note:provider_contacted_after_compile_failure");
                 }
                 if !matches!(case.pre, Pre::Checkpoint { delete_blob: true }) {
                     rep.class("unexpected_compile_failure");
                     rep.count("unexpected_compile_failure", 1);
                 }
-            } else if matches!(case.pre, Pre::Checkpoint { delete_blob: true }) && reason.is_some() {
+            } else if matches!(case.pre, Pre::Checkpoint { delete_blob: true }) && case.jobs.is_empty() && reason.is_some() {
+                // (with compaction jobs in the case a newer, intact checkpoint may legitimately be
+                // selected instead: no expectation then)
                 rep.fail("run|context|expected_compile_failure", detail("the thread's only checkpoint lost its summary artifact, yet the run did not end context_compile_failed"));
             }
         } else if nsel > 0 || ncomp > 0 {
@@ -1581,7 +1612,7 @@ fn oracle(case: &Case, d: &Driven, rep: &mut CaseReport) {
 
     // ---- no session stream beyond the ones this case started
     for (sid, frames) in &sessions {
-        if !d.accepted.iter().any(|a| a.session_id == *sid) && d.plain.as_ref().map(|p| p.session_id.as_str()) != Some(*sid) {
+        if !d.bad_accepted && !d.accepted.iter().any(|a| a.session_id == *sid) && d.plain.as_ref().map(|p| p.session_id.as_str()) != Some(*sid) {
             rep.fail("session|stray|unknown_stream", json!({"why": "session stream that no request of the case started", "session_id": sid, "frames": excerpt(frames)}));
         }
     }
@@ -1665,6 +1696,9 @@ fn run(case: &Case, known_registered: bool, explicit_replay: bool) -> CaseReport
     oracle(case, &d, &mut rep);
 
     let scripted_nontrivial = d.flat_turns[..served_turns].iter().any(|t| !t.calls.is_empty() || turn_is_error_path(t));
+    if std::env::var_os("C07_TRACE").is_some() {
+        eprintln!("[c07] classes={:?} counters={:?} fails={:?}", rep.classes, rep.counters, rep.fails.iter().map(|f| &f.sig).collect::<Vec<_>>());
+    }
     rep.nontrivial = scripted_nontrivial
         || rep.classes.iter().any(|c| c == "compile_failed" || c == "parallel_posts" || c == "tool_executed" || c == "provider:fallback_served");
     rep
